@@ -101,6 +101,31 @@ class Run:
             self.mems[name] = pv
         self.local_n = 0
 
+    def boxslot(self, vid):
+        """(buffer name, index) of a variable that lives in a buffer (address taken, or a reference bound to an element)"""
+        b = self.boxed[vid]
+        if isinstance(b, tuple) and len(b) == 2 and isinstance(b[1], int) and (b[0] in self.bufs):
+            return b
+        return (b, 0)
+
+    def bind_ref(self, sub, g, p_, a):
+        """reference parameter p_ of callee g bound to argument expression a: when a designates an element of a buffer (or a
+        boxed variable) the parameter names that storage; -> True if bound"""
+        pt = T(g, p_['t'])
+        if not pt.get('ref') or pt.get('rec'):
+            return False
+        try:
+            l = self.lv(a)
+        except (Unsupported, OOB):
+            return False
+        if l[0] == 'buf' and isinstance(l[1], tuple) and l[1][0] == 'P':
+            sub.boxed[p_['id']] = (l[1][1], l[1][2])
+            return True
+        if l[0] == 'var' and l[1] in self.boxed:
+            sub.boxed[p_['id']] = self.boxslot(l[1])
+            return True
+        return False
+
     def tick(self):
         self.budget[0] -= 1
         if self.budget[0] < 0:
@@ -387,7 +412,8 @@ class Run:
 
     def get(self, l):
         if l[0] == 'var' and l[1] in self.boxed:
-            return self.bufs[self.boxed[l[1]]][0]
+            bn_, bi_ = self.boxslot(l[1])
+            return self.load(('P', bn_, bi_), None)
         if l[0] == 'var':
             if l[1] not in self.vars:
                 raise Unsupported('read of an unset variable')
@@ -416,7 +442,8 @@ class Run:
         if l[0] == 'bufs':
             raise Unsupported('store through an abstract index')
         if l[0] == 'var' and l[1] in self.boxed:
-            self.bufs[self.boxed[l[1]]][0] = wrap(v, l[2])
+            bn_, bi_ = self.boxslot(l[1])
+            self.store(('P', bn_, bi_), wrap(v, l[2]), None)
         elif l[0] == 'var':
             self.vars[l[1]] = wrap(v, l[2])
         elif l[0] == 'mem':
@@ -493,7 +520,8 @@ class Run:
             return v
         if k == 'var':
             if e['id'] in self.boxed:
-                return self.bufs[self.boxed[e['id']]][0]
+                bn_, bi_ = self.boxslot(e['id'])
+                return self.load(('P', bn_, bi_), e.get('l'))
             if e['id'] in self.vars:
                 return self.vars[e['id']]
             if 'cv' in e:
@@ -555,7 +583,8 @@ class Run:
                         name = ('V', l[1], id(self))
                         self.bufs[name] = [self.vars.get(l[1], 0)]
                         self.boxed[l[1]] = name
-                    return ('P', self.boxed[l[1]], 0)
+                    bn_, bi_ = self.boxslot(l[1])
+                    return ('P', bn_, bi_)
                 raise Unsupported('address of `%s`' % pe(e['e']))
             if op in ('post++', 'post--', 'pre++', 'pre--'):
                 l = self.lv(e['e'])
@@ -950,6 +979,8 @@ class Run:
                 sub.objlen[p_['id']] = self.objlen.get(ao['id'], 0)
                 if ao['id'] in self.strobjs:
                     sub.strobjs.add(p_['id'])
+                continue
+            if self.bind_ref(sub, g, p_, a):
                 continue
             sub.vars[p_['id']] = wrap(self.val(a), T(g, p_['t']))
         return sub.run()
